@@ -113,7 +113,7 @@ theorem pointOpsCorrect (c : Affine.Crv) (C : Ctx p a b) (M : Matches c C) :
     refine ⟨R, ?_, ⟨pjMulWith_ord hord hR, _, rR⟩, den_eq rR⟩
     show ptMulWith [] (genOf c) k = .ok R
     rw [hgen]; exact hR
-  mulAddG u1 Q u2 hQ := by
+  mulAddG _ u1 Q u2 hQ := by
     have hgen : genOf c = .jac ⟨crvOf c, c.gx, c.gy, 1, some c.n, true⟩ := by simp [genOf, M.jac]
     have hord : OrdInv C.n (.jac ⟨crvOf c, c.gx, c.gy, 1, some c.n, true⟩) := Or.inl (by rw [M.cn])
     have hmul := mulOK_of C M.genRep (ordOK_of hord)
@@ -144,6 +144,11 @@ theorem pointOpsCorrect (c : Affine.Crv) (C : Ctx p a b) (M : Matches c C) :
     · obtain ⟨x, y, _, ey, _, _, y0, y1, _⟩ := GroupInterface.xy hJ
       exact ⟨y, ey, y0, by show y < c.p; rw [M.cp]; exact y1⟩
     · exact absurd hA.1 (by simp [OrdInv])
+  fromAffine A hA := by
+    cases A with
+    | infinity => exact ⟨hA, rfl⟩
+    | jac J => exact ⟨hA, rfl⟩
+    | aff _ => exact absurd hA.1 (by simp [OrdInv])
   scale A hA := by
     cases A with
     | infinity => exact ⟨.infinity, rfl, hA, rfl⟩
